@@ -219,6 +219,8 @@ func c11Scenarios(tier string) []e1lib.Scenario {
 						// nobody reads the error channel: the generator may wait for ever with its error, but it must stop at the cancel
 						add(timed.Cfg{Kind: "emit", Cap: cp, Freq: f, Mode: "try", Mask: 0b0101, ConsGaps: gaps, CancelAt: at, NoErr: true})
 						add(timed.Cfg{Kind: "emit", Cap: cp, Freq: f, Mode: "try", Mask: 0b1111, ConsGaps: gaps, CancelAt: at, NoErr: true})
+						add(timed.Cfg{Kind: "emit", Cap: cp, Freq: f, Mode: "lift", Mask: 0b0010, ConsGaps: gaps, CancelAt: at, NoErr: true})
+						add(timed.Cfg{Kind: "emit", Cap: cp, Freq: f, Mode: "lift", Mask: 0b0001, ConsGaps: gaps, CancelAt: at, NoErr: true})
 					}
 				}
 			}
